@@ -92,6 +92,13 @@ SINKS = [
     "{% assign a = @ %}{% translate x: a, y: v %}Hello {{ x }} and {{ y }}{% plural %}Hellos {{ x }}{% endtranslate %}",
     "{% assign a = @ %}{{ 'Hi %(x)s' | t: x: a }}{{ 'Hi %(x)s' | gettext: x: a }}{{ a | t }}{{ a | gettext }}{{ 'one' | ngettext: a, 2 }}{{ a | pgettext: a }}",
     "{% assign a = @ %}{{ 'one' | t: plural: a, count: 2 }}{{ 'one' | t: a, plural: a, count: 3 }}{{ 'one' | t: plural: a, count: 1 }}{{ 'one' | npgettext: a, a, 2 }}{{ a | ngettext: a, 1 }}{{ 'one %(count)s' | t: plural: 'many %(count)s', count: a }}",
+    # messages with a stray '%' (one statement per sink: a statement that raises must not hide the others)
+    "{% assign a = @ %}{{ '50% off for %(x)s' | t: x: a }}",
+    "{% assign a = @ %}{{ '%(x)s 100%' | gettext: x: a }}",
+    "{% assign a = @ %}{{ '%(x)s %s' | t: x: a }}{{ '%(y)s %(x)s' | t: x: a }}",
+    "{% assign a = @ %}{{ 'one %(x)s 5%' | t: plural: 'many %(x)s 5%', count: 2, x: a }}",
+    "{% assign a = @ %}{% translate x: a %}50% {{ x }} %(y)s{% endtranslate %}",
+    "{% assign a = @ %}{{ empty_hash[a] }}{{ [a] }}{{ empty_hash[a].x }}{{ nosuch[a][a] }}{{ a.nosuch }}{% capture c %}{{ empty_hash[a] }}{% endcapture %}{{ c }}{% echo empty_hash[a] %}{{ empty_hash[a] | upcase }}",
     "{% assign a = @ %}{% for i in a %}{{ i }}{{ forloop.index }}{% endfor %}{% for i in v %}{{ i }}{% endfor %}",
     "{% assign a = @ %}{% case a %}{% when a %}{{ a }}{% else %}{{ a }}{% endcase %}",
     "{% assign a = @ %}{% if a %}{{ a }}{% endif %}{{ a if a else a }}{{ 'lit' if false else a | append: a || prepend: a }}",
@@ -114,6 +121,10 @@ def envs() -> dict[str, Any]:
     if not _ENVS:
         _ENVS["default"] = impl.make_env(auto_escape=True, templates=TEMPLATES)
         _ENVS["shopify"] = impl.make_env(auto_escape=True, templates=TEMPLATES, shopify=True)
+        from liquid2.undefined import DebugUndefined
+
+        # an undefined type that describes what was missing: the description can quote data
+        _ENVS["debug"] = impl.make_env(auto_escape=True, templates=TEMPLATES, shopify=True, undefined=DebugUndefined)
     return _ENVS
 
 
@@ -148,12 +159,12 @@ def check_expr(expr: str, sink: str, form: str, env_name: str, res: ShardResult 
         return out
     try:
         if mode == "async":
-            kind, val = run_solo(t.render_async(v=FORMS[form]))
+            kind, val = run_solo(t.render_async(v=FORMS[form], empty_hash={}))
             if kind != "ok":
                 raise val
             rendered = val
         else:
-            rendered = t.render(v=FORMS[form])
+            rendered = t.render(v=FORMS[form], empty_hash={})
     except LiquidError:
         if res is not None:
             res.evaluations += 1
@@ -246,6 +257,7 @@ def run_shard(shard) -> ShardResult:
             combos = [(s, f, en, "sync") for s in SINKS for f in forms for en in ("shopify",)] + [(SINKS[0], f, "default", "sync") for f in forms]
             # the asynchronous twins of every sink (each node has a separate render_to_output_async)
             combos += [(s, f, "shopify", "async") for s in SINKS for f in (("plain", "list", "hash-value") if nfilters == 0 else ("plain",))]
+            combos += [(s, "plain", "debug", m) for s in SINKS for m in ("sync", "async")]
         else:
             combos = [(SINKS[0], f, "shopify", "sync") for f in forms] + [(s, "plain", "shopify", "sync") for s in (SINKS[3], SINKS[7], SINKS[12])]
         for sink, form, en, mode in combos:
